@@ -1,7 +1,7 @@
 from common import Rng
 
 CONFIG = dict(
-    claimed=False, na_reason="proofs in progress",
+    claimed=True,
     level_text="Kernel-checked Lean theorems over ALL event sequences of the GR/LLGR helper model (GrState + the two timer "
                "slots + the session + the peer's routes with their Source stale marks): the C10 reference checker accepts "
                "every model run; a stale or LLGR-stale route implies an armed restart timer, an armed LLGR timer of its "
@@ -17,30 +17,50 @@ CONFIG = dict(
                "PeerSession::new_for_test + direct calls). Modelled, not verified: tokio timer tasks (a timer is an explicit "
                "event, fired through the code's own oneshot 'run now' path), restart/stale durations, RTC state, BMP/BFD.",
     lean_modules=["Rbgp.Gr.Helper.Props"],
-    theorems=[],
+    theorems=[
+        "Rbgp.Gr.Helper.Props.check_run_ok",
+        "Rbgp.Gr.Helper.Props.inv_after",
+        "Rbgp.Gr.Helper.Props.inv_inductive",
+        "Rbgp.Gr.Helper.Props.stale_implies_pending",
+        "Rbgp.Gr.Helper.Props.drop_clears_other_families",
+        "Rbgp.Gr.Helper.Props.purge_spares_fresh",
+        "Rbgp.Gr.Helper.Props.failed_attempt_keeps_timer",
+        "Rbgp.Gr.Helper.Props.no_llgr_dropped",
+        "Rbgp.Gr.Helper.Props.ineligible_class",
+        "Rbgp.Gr.Helper.Props.ineligible_no_helper",
+        "Rbgp.Gr.Helper.Props.bounded_lifetime_gr",
+        "Rbgp.Gr.Helper.Props.bounded_lifetime_llgr",
+        "Rbgp.Gr.Helper.Props.bounded_lifetime_eor",
+    ],
     harness=dict(kind="daemon", test="event::verif_event::c10::verif_main"),
     profiles=["debug"],
-    n_quick=2500, n_thorough=60000, shards=12,
+    n_quick=2000, n_thorough=60000, shards=12,
     nontrivial_re=r"\(\d \d t |\(\d \d f t ",
     rule="histories of one peer over 3 families x 3 prefixes: session established (any session family set, negotiated GR "
          "subset with/without N-bit, negotiated LLGR set incl. LLGR-only families, local speaker in selection deferral or "
          "not), announcements (with/without NO_LLGR / LLGR_STALE community), End-of-RIB per family, session down for every "
          "SessionDownReason (I/O, hold timer, remote/local NOTIFICATION with Cease / hard reset / non-Cease codes, FSM "
          "error, admin shutdown), a connection ending before Established, restart-timer and per-family LLGR-timer expiry, "
-         "force_down, disable/enable; plus pure GrState input sequences; non-trivial = some stale or LLGR-stale route was "
-         "observed; distinct = distinct case line",
+         "force_down, disable/enable, generated as session cycles with random events mixed in plus a pure-noise stream; plus "
+         "the pure GrState machine: every reachable model state x every input (BFS in the model, 594 cases) and random "
+         "input sequences; non-trivial = some stale or LLGR-stale route was observed; distinct = distinct case line",
     expect_tokens=["(rib (", "t (llt", "(llt 0", "(llt 1", "(llt 2", "start-timer", "stop-timer", "del-stale", "start-llgr",
                    "stop-llgr", "del-llgr"],
     trusted_base=["model Rbgp/Gr/Helper/Model.lean of daemon/src/gr.rs GrState + the helper-side glue of event/mod.rs + the "
-                  "per-peer RIB operations of table_manager.rs / table/src/lib.rs",
-                  "harness/daemon/c10.rs drives the real functions in the order the session task would; run_select's "
-                  "mapping CloseReason -> SessionDownReason::AdminShutdown and handle_message's `if negotiated_gr.is_some()` "
-                  "guard for End-of-RIB are transcribed (3 lines)"],
+                  "per-peer RIB operations of table_manager.rs / table/src/lib.rs (stale marks kept per path instead of per "
+                  "shared Source: every marking happens after the owning session ended)",
+                  "harness/daemon/c10.rs calls the real PeerSession::{process_effects, finish_session}, apply_disconnect, "
+                  "PeerContext::{force_down, fire_gr_timer} and the real timer tasks in the order the session task would; "
+                  "run_select's mapping CloseReason -> SessionDownReason::AdminShutdown and handle_message's "
+                  "`if negotiated_gr.is_some()` guard for End-of-RIB are transcribed (3 lines)"],
     modelled_not_verified=["timer tasks (tokio::time::timeout on a oneshot) — expiry is an explicit event; durations are not "
                            "modelled", "RTC state machine calls inside apply_disconnect / gr_restart_timer_expired",
                            "route ranking and distribution of the resulting NlriChanges (C02/C06/C01)"],
-    assumptions=["the events of one peer are serialised by its PeerContext mutex; a session's tear-down (session_loop tail "
-                 "+ apply_disconnect) is treated as one atomic step"],
+    assumptions=["the events of one peer are serialised by its PeerContext mutex; a session's tear-down (finish_session "
+                 "+ apply_disconnect) is treated as one atomic step, and a new session of the peer is not established in between",
+                 "negotiated GR / LLGR family sets are non-empty subsets of the session's families (negotiate_gr/negotiate_llgr "
+                 "return None for an empty intersection; a peer advertising GR for a family it has no MP-BGP capability for is "
+                 "outside the model: its stale routes of that family would wait for an End-of-RIB that cannot come)"],
 )
 
 NF, NX = 3, 3
@@ -97,31 +117,59 @@ def gen_est(r):
     return "(est %s %s %s %s)" % (fl(fams), gr, llgr, b(r.chance(1, 12)))
 
 
+def rand_ev(r):
+    k = r.weighted([("est", 3), ("attempt", 3), ("gr-timer", 3), ("llgr-timer", 3), ("force", 1), ("disable", 1),
+                    ("enable", 2), ("ann", 3), ("eor", 3), ("down", 2)])
+    if k == "est":
+        return gen_est(r)
+    if k == "ann":
+        return "(ann %d %d %s %s)" % (r.below(NF), r.below(NX), b(r.chance(1, 4)), b(r.chance(1, 8)))
+    if k == "eor":
+        return "(eor %d)" % r.below(NF)
+    if k == "down":
+        return "(down %s)" % gen_reason(r)
+    if k == "llgr-timer":
+        return "(llgr-timer %d)" % r.below(NF)
+    return k
+
+
 def gen_glue(r):
-    n = 2 + r.below(r.pick([6, 12, 20, 30]))
+    """session cycles (establish, announce, End-of-RIB, go down, what happens while down) with random events mixed in"""
     evs = []
-    up = False
-    for _ in range(n):
-        if not up:
-            k = r.weighted([("est", 10), ("attempt", 3), ("gr-timer", 3), ("llgr-timer", 3), ("force", 1),
-                            ("disable", 1), ("enable", 1), ("ann", 1), ("eor", 1), ("down", 1)])
+    disabled = False
+    for _ in range(1 + r.below(3)):
+        est = gen_est(r)
+        evs.append(est)
+        fams = [int(x) for x in est[6:est.index(")")].split()] or [0]
+        for _ in range(r.below(5)):
+            f = r.pick(fams) if r.chance(7, 8) else r.below(NF)
+            evs.append("(ann %d %d %s %s)" % (f, r.below(NX), b(r.chance(1, 4)), b(r.chance(1, 8))))
+            if r.chance(1, 7):
+                evs.append(rand_ev(r))
+        for f in fams:
+            if r.chance(1, 2):
+                evs.append("(eor %d)" % f)
+        if r.chance(1, 4):
+            evs.append("(ann %d %d f f)" % (r.pick(fams), r.below(NX)))
+        w = r.below(20)
+        if w < 1:
+            evs.append("force")
+        elif w < 2:
+            evs.append("disable"); disabled = True
+        elif w < 12:
+            evs.append("(down io)")
         else:
-            k = r.weighted([("ann", 10), ("eor", 5), ("down", 5), ("attempt", 2), ("gr-timer", 1), ("llgr-timer", 1),
-                            ("force", 1), ("disable", 1), ("enable", 1), ("est", 1)])
-        if k == "est":
-            evs.append(gen_est(r)); up = True
-        elif k == "ann":
-            evs.append("(ann %d %d %s %s)" % (r.below(NF), r.below(NX), b(r.chance(1, 4)), b(r.chance(1, 8))))
-        elif k == "eor":
-            evs.append("(eor %d)" % r.below(NF))
-        elif k == "down":
-            evs.append("(down %s)" % gen_reason(r)); up = False
-        elif k == "llgr-timer":
-            evs.append("(llgr-timer %d)" % r.below(NF))
-        else:
-            evs.append(k)
-            if k in ("force", "disable"):
-                up = False
+            evs.append("(down %s)" % gen_reason(r))
+        for _ in range(r.below(4)):
+            k = r.weighted([("attempt", 4), ("gr-timer", 4), ("llgr-timer", 4), ("force", 1), ("rand", 2)])
+            if k == "llgr-timer":
+                evs.append("(llgr-timer %d)" % r.pick(fams))
+            elif k == "rand":
+                evs.append(rand_ev(r))
+            else:
+                evs.append(k)
+        if disabled and r.chance(2, 3):
+            evs.append("enable"); disabled = False
     return "(glue %s)" % " ".join(evs)
 
 
@@ -147,9 +195,25 @@ def gen_pure(r):
     return "(pure %s)" % " ".join(ins)
 
 
+def gen_noise(r):
+    return "(glue %s)" % " ".join(rand_ev(r) for _ in range(2 + r.below(24)))
+
+
+def pure_bfs():
+    """every reachable state of the MODEL of GrState x every input of the alphabet (families 0..1 for the drop /
+    established parameters, 0..2 for End-of-RIB and LLGR-timer), each state driven along a shortest path; computed by
+    the Lean driver (`drv_c10 bfs`) from the model itself."""
+    import subprocess, os
+    drv = os.path.join(os.path.dirname(os.path.dirname(os.path.abspath(__file__))), "lean", ".lake", "build", "bin", "drv_c10")
+    out = subprocess.run([drv, "bfs"], input="(bfs)\n", stdout=subprocess.PIPE, text=True, timeout=600).stdout
+    return [l for l in out.split("\n") if l.startswith("(pure")]
+
+
 def gen(seed, n, tier):
     r = Rng(seed * 1000003 + 10)
-    cases = []
-    while len(cases) < n:
-        cases.append(gen_pure(r) if r.chance(1, 6) else gen_glue(r))
+    cases = pure_bfs()
+    target = len(cases) + n
+    while len(cases) < target:
+        w = r.below(12)
+        cases.append(gen_pure(r) if w < 1 else gen_noise(r) if w < 3 else gen_glue(r))
     return cases
